@@ -108,9 +108,11 @@ FIXED = [
     ("C03", "C03/history-dependent:GopherProtocol/UMNDirHandler", "4de2aba",
      "a request for '<dir>/.' (or '/.'): accepted, listed empty (every child '<dir>/./x' is refused) and that empty listing saved "
      "as the directory cache of the real <dir>: every later client of <dir> got an empty menu until the cache expired (also C10)"),
-    ("C03", "C03/history-dependent:WAPProtocol/UMNDirHandler", "e4f1e64",
+    ("C03", "C03/history-dependent:WAPProtocol/UMNDirHandler", "e4f1e64+d5eabe4",
      "a request for '<dir>//': normalised to '<dir>/', listed empty (children '<dir>//x' refused) and saved as the cache of <dir> "
      "(the same poisoning as '<dir>/.')"),
+    ("C04", "C04/not-a-document-reply:gopherp:plain", "3e7d7b9",
+     "'+' request for a .html.tal document: '+<size of the template file>' followed by the expansion (another length)"),
     ("C03", "C03/internal:ValueError@logger.py:log_syslog", "f9eb3c7",
      "logmethod = syslog (the shipped default) and a selector containing NUL: syslog.syslog() raises ValueError while the request "
      "is being logged, no reply"),
